@@ -102,7 +102,7 @@ def run(ctx):
     nseq = 10 if ctx.quick() else 120
     for tag, defs in (('2', ['-DURCU_VERIF_INIT_READER_COUNT=2']), ('default', [])):
         exe = os.path.join(BUILD, 'bparena_probe_' + tag)
-        rc, so, se = sh(['gcc', '-O1', '-g', '-w', '-DURCU_VERIF'] + defs + ['-I' + REPO + '/include', '-I' + REPO + '/src', os.path.join(HARN, 'seqdiff/bparena.c')] + SRCS + ['-o', exe, '-lpthread'])
+        rc, so, se = sh(['gcc', '-O1', '-g', '-w', '-include', REPO + '/include/config.h', '-DURCU_VERIF'] + defs + ['-I' + REPO + '/include', '-I' + REPO + '/src', os.path.join(HARN, 'seqdiff/bparena.c')] + SRCS + ['-o', exe, '-lpthread'])
         if rc: ctx.fail('harness', 'build of seqdiff/bparena.c', se[-600:]); continue
         if am: C15seq.diff_run(ctx, 'BpArena.prune / alloc / free vs urcu_bp_prune_registry / arena_alloc / cleanup_thread (INIT_READER_COUNT %s)' % tag, exe, am,
                                [[exe, '700', str(ctx.seed * 100 + 50 + i), str(i % 3)] for i in range(nseq)], 'harness/seqdiff/bparena.c')
@@ -114,7 +114,7 @@ def run(ctx):
     for name, src, args in probes:
         if name not in built:
             exe = os.path.join(BUILD, name)
-            rc, so, se = sh(['gcc', '-O1', '-g', '-w', '-I' + REPO + '/include', '-I' + REPO + '/src', os.path.join(HARN, src)] + SRCS + (LFHT if name == 'fork_lfht' else []) + ['-o', exe, '-lpthread'])
+            rc, so, se = sh(['gcc', '-O1', '-g', '-w', '-include', REPO + '/include/config.h', '-I' + REPO + '/include', '-I' + REPO + '/src', os.path.join(HARN, src)] + SRCS + (LFHT if name == 'fork_lfht' else []) + ['-o', exe, '-lpthread'])
             built[name] = None if rc else exe
             if rc: ctx.fail('harness', 'build of ' + src, se[-600:])
         exe = built[name]
